@@ -555,12 +555,19 @@ def run(tier, replay=None):
         mode = r.random()
         n_rd = 0 if mode < 0.07 else r.randint(4, 14)          # a sample without reads: the screen sees the prior only
         reads, counts = G.gen_reads(r, n_alleles, n_rd, haps=truth, gap=0.1, style="encoded", max_count=4)
+        if n_rd > 0 and it % 5 == 4:
+            # deep data (amplicons, pools): hundreds of copies of every read, so that the probability of a homozygous
+            # SNV is exactly 1.0 in double precision and a threshold of 1 is reached
+            counts = counts * r.choice([60, 150, 400])
+            chk.count("fit:deep-reads")
         if n_rd == 0:
             chk.count("fit:zero-reads")
         if 0.07 <= mode < 0.2 or (n_rd == 0 and r.random() < 0.5):
             counts = None                                        # read_counts=None: every row observed once
             chk.count("fit:read_counts=None")
         thr = r.choice([0.999, 0.9, 0.6, 0.5, 0.3, 0.0, 1.0])
+        if n_rd > 0 and it % 5 == 4 and it % 2 == 0:
+            thr = 1.0
         F = r.choice([0, 0.1, 0.5])
         n_chains = r.choice([1, 1, 2, 3])
         chk.count(f"fit:threshold={thr}"); chk.count(f"fit:inbreeding={F}"); chk.count(f"fit:chains={n_chains}")
@@ -597,7 +604,12 @@ def run(tier, replay=None):
         reads_seen = reads if n_rd > 0 else np.full((1, nb, reads.shape[2]), np.nan)
         counts_seen = counts if (n_rd > 0 or counts is None) else np.array([1], dtype=np.int64)
         hp = _homozygosity_probabilities(reads_seen, np.array(n_alleles, dtype=np.int8), ploidy, inbreeding=F, read_counts=counts_seen)
-        margin = np.min(np.abs(hp[hp > 0] - thr)) if (hp > 0).any() else 1.0
+        # a probability within 1e-9 of the threshold WITHOUT being equal to it is a float-rounding question and is not
+        # compared; exact equality is not ambiguous ("reaches" = >=; deep data gives probabilities of exactly 1.0)
+        near = np.abs(hp[(hp > 0) & (hp != thr)] - thr)
+        margin = np.min(near) if near.size else 1.0
+        if (hp == thr).any():
+            chk.count("fit:probability-equals-threshold")
         if margin < 1e-9:
             chk.count("skipped:threshold-margin")
             continue
